@@ -762,6 +762,8 @@ class Module(ABC):
         for channel in self.base.channels:
             name = channel._name
             self.base.nodes.loc[self.nodes[name].isna(), name] = False
+            # `pd.concat` made the column `object` if a constituent lacks the channel.
+            self.base.nodes[name] = self.base.nodes[name].astype(bool)
 
     @only_allow_module
     def to_jax(self):
